@@ -348,6 +348,12 @@ def run_property(pid, tier, replay=None):
     mod = prop_module(pid)
     if replay:
         data = unjson(json.load(open(replay)))
+        case = data.get('case', data) if isinstance(data, dict) else {}
+        if isinstance(case, dict) and case.get('traceback'):
+            # an exception that escaped the run: the replay is the run itself
+            print(case.get('exception')); print(case['traceback'])
+            print('re-running the %s check (seed %s) to reproduce' % (pid, os.environ.get('VERIF_SEED', '0')))
+            return run_property(pid, tier)
         return mod.replay(data)
 
     # 1. tie part (a): regenerate tables, rebuild and re-check every proof
@@ -373,6 +379,18 @@ def run_property(pid, tier, replay=None):
     except HarnessError as e:
         harness_error = str(e)
         ctx.model_ok = False
+    except Exception as e:
+        # An exception escaping the run: if it comes out of the implementation at a place where the harness
+        # expected none (e.g. a type refusing its own encoding), that is a concrete failure of the property on
+        # the call in the traceback; if it comes out of the harness itself the check is broken.  Either way
+        # the property is not shown to hold on this tree: report it, never crash without a VIOLATION line.
+        import traceback
+        tb = traceback.format_exc()
+        in_impl = os.path.join(REPO, 'pyasn1') in tb
+        ctx.prop_fail(('the implementation raised %s where the check expected it to succeed' if in_impl
+                       else 'the check itself raised %s') % type(e).__name__,
+                      {'exception': '%s: %s' % (type(e).__name__, str(e)[:300]), 'traceback': tb[-3000:],
+                       'origin': 'implementation' if in_impl else 'harness'})
     suspicious = (not proof_ok) or ctx.corr_failures or harness_error
     extra = []
     if suspicious and not ctx.prop_failures:
@@ -383,6 +401,8 @@ def run_property(pid, tier, replay=None):
             try:
                 mod.run(c2)
             except HarnessError:
+                pass
+            except Exception:
                 pass
             extra.append(c2)
             if c2.prop_failures:
